@@ -104,7 +104,7 @@ def mk(kind, *args):
   if kind == "isqrt" and ints[0] is not None and ints[0] >= 0:
     import math
     return Poly.const(math.isqrt(ints[0]))
-  if kind == "gcd":
+  if kind in ("gcd", "band", "bor", "bxor"):
     a = sorted(a, key=repr)
   if kind == "idx":
     base = a[0].as_atom() if isinstance(a[0], Poly) else None
